@@ -144,7 +144,9 @@ def _migrate_csv_to_rules(csv_file: str, config_dir: str, backup: bool = True) -
         if os.path.exists(settings_path):
             with open(settings_path, 'r', encoding='utf-8') as f:
                 settings_content = f.read()
-            if 'merchants_file:' not in settings_content:
+            # (an active setting, not a commented-out '# merchants_file: ...' line)
+            import re
+            if not re.search(r'^[ \t]*merchants_file[ \t]*:', settings_content, re.MULTILINE):
                 tmp_settings = settings_path + '.tmp'
                 with open(tmp_settings, 'w', encoding='utf-8') as f:
                     f.write(settings_content)
